@@ -75,9 +75,16 @@ fn main() {
         "c10" => c10::run(&a),
         "c14" => c14::run(&a),
         "c15" => c15::run(&a),
-        "coremix" => coregen::run(&a, "CORE", "CoreMix", &["mix", "c07", "c03"]),
+        "coremix" => coregen::run(&a, "CORE", "CoreMix", &["mix", "c07", "c03", "c04", "c05", "c08", "c09", "c11", "c13", "c20"]),
         "c03" => coregen::run(&a, "C03", "C03", &["c03"]),
         "c07" => coregen::run(&a, "C07", "C07", &["c07", "c07", "mix"]),
+        "c04core" => coregen::run(&a, "C04", "C04", &["c04"]),
+        "c05core" => coregen::run(&a, "C05", "C05", &["c05"]),
+        "c08core" => coregen::run(&a, "C08", "C08", &["c08"]),
+        "c09" => coregen::run(&a, "C09", "C09", &["c09"]),
+        "c11" => coregen::run(&a, "C11", "C11", &["c11"]),
+        "c13" => coregen::run(&a, "C13", "C13", &["c13"]),
+        "c20" => coregen::run(&a, "C20", "C20", &["c20"]),
         other => {
             eprintln!("unknown property driver {}", other);
             std::process::exit(2);
